@@ -25,6 +25,7 @@ type truncShape struct {
 	sideTip   bool
 	second    bool
 	overdrawn bool
+	parallel  bool // around the later cut the nodes seal runs of vertices before they exchange them: real side branches
 }
 
 func (w *World) balancesOf(n *Node) map[string]string {
@@ -73,6 +74,11 @@ func truncScenario(c *Ctx, sh truncShape) {
 	w.quiet = true
 	var all []accountant.Vertex
 	var firstTrx *transaction.Transaction
+	type held struct {
+		n *Node
+		v accountant.Vertex
+	}
+	var withheld []held
 	for i := 0; i < sh.build; i++ {
 		n := w.nodes[i%sh.nodes]
 		iss := w.wallets[i%4]
@@ -104,11 +110,32 @@ func truncScenario(c *Ctx, sh truncShape) {
 			continue
 		}
 		all = append(all, v)
-		for _, m := range w.nodes {
-			if m != n {
-				w.Add(m, &v)
+		// in the parallel zone (where the first cut will fall: about 1000 vertices below the final tip) vertices
+		// are exchanged only after every node has sealed three on its own tip
+		if sh.parallel && sh.nodes > 1 && i >= sh.build-1100 && i < sh.build-930 {
+			withheld = append(withheld, held{n, v})
+			if len(withheld) < 3*sh.nodes {
+				continue
+			}
+		} else if len(withheld) > 0 {
+			withheld = append(withheld, held{n, v})
+		} else {
+			for _, m := range w.nodes {
+				if m != n {
+					w.Add(m, &v)
+				}
+			}
+			continue
+		}
+		for _, h := range withheld {
+			for _, m := range w.nodes {
+				if m != h.n {
+					hv := h.v
+					w.Add(m, &hv)
+				}
 			}
 		}
+		withheld = nil
 	}
 	var side accountant.Vertex
 	if sh.sideTip {
@@ -529,13 +556,13 @@ func init() {
 		c.Rep.Rule = "ledgers of 1100-1300 vertices built on the real code (chain; two-node braid; with self-transfers; with a side tip not descending from the cut), SEEDed into the model, truncated, then: balances of all wallets before/after, reads of moved vertices/transactions, re-submissions, 24 proposals spending checkpointed funds, optional second truncation; non-trivial = distinct shape"
 		shapes := []truncShape{
 			{name: "chain-twice", nodes: 1, build: 1150, second: true},
-			{name: "selfxfer-braid", nodes: 2, build: 1200, selfXfer: true},
+			{name: "selfxfer-braid", nodes: 2, build: 1200, selfXfer: true, parallel: true},
 			{name: "sidetip", nodes: 1, build: 1250, sideTip: true},
 		}
 		if c.Tier == "thorough" {
 			shapes = append(shapes,
 				truncShape{name: "braid-twice", nodes: 2, build: 1120, second: true},
-				truncShape{name: "braid3", nodes: 3, build: 1300},
+				truncShape{name: "braid3", nodes: 3, build: 1300, parallel: true},
 			)
 		}
 		// the trigger predicate of the truncate loop, exhaustively over boundary values
